@@ -56,6 +56,16 @@ CHECKS["C10"] = dict(
     note="nearest-double rounding delegated to str::parse::<f64> (trusted); no big integers in TLA+, values are digit strings",
     technique="TLA+ requirement spec as case generator (TLC), replay into the real analyser",
     engine="tlc+replay")
+_parse_text = ("Both public parse entry points are driven over every token sequence of length <= 4 (quick) / <= 5 (thorough, 6.3e9 sequences) over the full "
+    "91-kind token alphabet as oq3_parser::Input (all jointness patterns up to length 3/4) and rendered to text, plus the robustness corpus (repository texts, "
+    "mutations, random UTF-8, token soup, deep nesting); hooks turn non-terminating grammar loops into attributable panics; a stride sample of the recorded parse "
+    "observations is validated by TLC against TreeTrace.tla/TreeShape.tla. ")
+CHECKS["C01"] = dict(level="model_checking", design="5/C01", text=_parse_text + "C01 verdict: the call returns, parser events <= 64*(tokens+1).",
+    note="bounds: random inputs <= 4 KiB, nesting <= 64; rowan trusted", technique="bounded-exhaustive token sequences + TLC trace validation (TreeTrace.tla) of recorded parses", engine="walker+tlc")
+CHECKS["C02"] = dict(level="model_checking", design="5/C02", text=_parse_text + "C02 verdict: TreeShape!Lossless (root, leaf text, tiling, node = span of children) on every observation.",
+    note="clauses evaluated natively at scale and by TLC on the recorded sample", technique="TLA+ tree-shape requirement checked by TLC on recorded trees + native evaluation at scale", engine="walker+tlc")
+CHECKS["C12"] = dict(level="model_checking", design="5/C12", text=_parse_text + "C12 verdict: TreeShape!SpansValid and ErrorHasDiag on every observation (syntax diagnostics); semantic spans are covered by the analyser checks.",
+    note="syntax and lexical diagnostics only in this check", technique="TLA+ span/tree monitors checked by TLC on recorded observations + native evaluation at scale", engine="walker+tlc")
 NOT_YET = {}
 for i in range(1, 21):
     pid = f"C{i:02d}"
